@@ -39,6 +39,10 @@ P = {
   "Static decision for every byte string of every length: the accept sets of SetCompressedBytes, SetUncompressedBytes, SetBytes, NewPointFromBytes and NewPointFromCoords (extracted by abstract interpretation on a symbolic input of symbolic length, as propositional formulas over atoms such as len = 33, src[0] = 2, x >= p, x^3+7 is a square, y^2 = x^3+7) are equivalent to the SEC 1 rule set; the stored point for prefixes 2/3/4/0 is (x, root with the parity of the prefix, 1) / (x,y,1) / (0,1,0) with the validity flag set; on every rejecting valuation the receiver's fields keep their initial symbols and the returned pointer is nil; the three encoders return 0x00 for Z = 0 and prefix || Bytes(X/Z) [|| Bytes(Y/Z)] otherwise (compressed prefix = 2 + parity(Y/Z)); RecoverPoint decided for every recovery id (0..3 concretely, >= 4 symbolically): x = r (+ n), accepted iff [x >= n] = bit 1, x mod n = r, x^3+7 a square, parity = bit 0; SplitUncompressedPoint = (b[1:33], b[64]&1), panics unless len = 65.",
   "Trusted: C01 (field specification incl. sqrt_ratio returning a root exactly when one exists), C02, C03-5 (rescale), the propositional comparison, go/ssa, the checker. Encode/decode round-trip identities follow from the decided clauses and C01's canonical Bytes; they are derived, not separately computed.",
   "abstract interpretation over go/ssa against the field specification; accept-set formulas and stored values compared as normal forms under every consistent valuation of the branch atoms"),
+ "C10": ("other",
+  "Static decision for all keys and inputs: ECDH(k,B) = Bytes(x(k.scalar * B.point)) with the identity the only error; accept sets of NewPrivateKey (32 bytes, < n, non-zero), NewPrivateKeyFromScalar (non-zero), NewPublicKey (valid SEC 1 encoding per C06 of a non-identity point), NewPublicKeyFromPoint (non-identity) as propositional normal forms; an accepted key stores fresh copies (allocation-site origin) of the scalar / point, the public point d*G and 04||x||y of the stored point; no key object accompanies an error; PrivateKey / PublicKey objects are allocated and written only inside the two unexported constructors (who-writes over every package of the module); accessors return fresh copies, do not write the key, and CompressedBytes = (2 + parity) || x of the stored point.",
+  "Trusted: C04 (ScalarMult exact; symmetry ECDH(a,B) = ECDH(b,A) = x(ab*G) is its consequence, recorded as derived), C05, C06, C02; go/ssa; the checker.",
+  "abstract interpretation over go/ssa against lower-layer specifications; accept-set formulas, stored values and allocation-site freshness; who-writes scan over SSA"),
  "C11": ("other",
   "Static decision for every digest, r, s and recovery id 0..255: RecoverPublicKey returns a key exactly when r,s != 0, the reconstruction of R succeeds, len(h) >= 32 and Q is not the identity, and then the key holds Q = (-e/r)*G + (s/r)*R (terms compared as normal forms in the Z/n-module) with its cached encoding; no key object accompanies an error; the defensive panic is unreachable. R reconstruction (RecoverPoint) decided for ids 0..3 concretely and >= 4 symbolically: x = r (+ n when bit 1), accepted iff [x >= n] = bit 1, x mod n = r, x^3 + 7 is a square; y parity = bit 0.",
   "Trusted: C02, C06, C16, C01 (sqrt). 'Every returned Q verifies (r,s)' and 'the id emitted by Sign recovers the signer' are algebraic consequences (Q = r^-1(sR - eG) <=> R = (e/s)G + (r/s)Q; C08 gives the id formula), recorded as derived, not separately computed.",
@@ -49,7 +53,7 @@ P = {
   "abstract interpretation over go/ssa against lower-layer specifications; accept-set formulas compared as propositional normal forms"),
 }
 
-CLAIMED = ["C01", "C02", "C03", "C04", "C05", "C06", "C07", "C11", "C16", "C19"]
+CLAIMED = ["C01", "C02", "C03", "C04", "C05", "C06", "C07", "C10", "C11", "C16", "C19"]
 
 REASON_PENDING = "check under construction in this session (see DESIGN.md section 2); not yet claimed"
 
